@@ -238,7 +238,15 @@ def rule_R4(ctx, f):
     if ok:
         ep = elem_of(peel(pushes[0].args[1]))
         ok = bool(ep) and is_call(ep[0], ["take_metric"]) and peel(ep[0][2][0]) == fam and [a for a in ep[1] if a != "into_iter"] == []
-    ctx.ob(rid, "gather|occupied-moves-all-samples", ok, "for an existing name every sample of take_metric() must be pushed (no filter, no clone)", site=pushes[0].span if pushes else None)
+    if ok:
+        # the push is executed for every sample: no path through the loop body skips it
+        mnx = [c for c in b.calls_to("Iterator::next") if (lambda e: e and is_call(e[0], ["take_metric"]))(elem_of(("field", ("downcast", c.result_term(), "Some"), "0")))]
+        ok = len(mnx) == 1
+        if ok:
+            msi = b.switch_info(mnx[0].target)
+            mbody = [t for v, t in msi[1] if v == 1][0]
+            ok = b.all_paths_pass(mbody, [pushes[0].bb], dst_set={mnx[0].bb})
+    ctx.ob(rid, "gather|occupied-moves-all-samples", ok, "for an existing name every sample of take_metric() must be pushed, unconditionally (no filter, no de-duplication, no clone)", site=pushes[0].span if pushes else None)
     loop_blocks = b.reach(body_entry, avoid_blocks=[outer.bb])
     clones = [c for c in b.calls_to("Clone::clone") if c.bb in loop_blocks and ("Metric" in c.callee_args)]
     ctx.ob(rid, "gather|no-clone", not clones, "samples and families are moved, never cloned, in the merge loop", site=clones[0].span if clones else None)
@@ -336,6 +344,10 @@ def run(ctx):
     ctx.run_rule("R3", rule_R3, f)
     ctx.run_rule("R4", rule_R4, f)
     ctx.run_rule("R5", rule_R5, f)
+    # positional comparison of label values (R2) and "every sample carries its labels" need make_label_pairs to emit every declared label, sorted by name
+    from . import C05, C06
+    ctx.rule("R6", "every sample carries all its declared labels sorted by name (shared with C05.R5): make_label_pairs pairs variable_labels[i] with label_values[i] for all i, appends all const pairs, sorts")
+    ctx.run_rule("R6", lambda c: C06._as(c, "R6", lambda s: C05.rule_R5(s, f)))
     if ctx.tier == "thorough":
         for cfgname in ("plain", "nightlyproc"):
             g = ctx.facts(cfgname)
